@@ -489,7 +489,7 @@ def main(chk: Check):
     for f in sorted((VERIF / "corpus" / "C31").glob("*.json")):
         d = json.loads(f.read_text())
         envs.append(({k: (v if isinstance(v, str) else list(v)) for k, v in d["env"].items()}, d.get("ro", [])))
-    n_valid, n_bad = chk.n(200, 2400), chk.n(50, 400)
+    n_valid, n_bad = chk.n(170, 2400), chk.n(45, 400)
     for _ in range(n_valid):
         envs.append(gen_env(rng))
     bad = [gen_bad_env(rng) for _ in range(n_bad)]
@@ -516,7 +516,7 @@ def main(chk: Check):
     frame_cases, frame_meta = [], []
     xdir = chk.scratch / "framefile"
     xdir.mkdir(exist_ok=True)
-    for env, ro, res in gen_meta[: chk.n(50, 500)]:
+    for env, ro, res in gen_meta[: chk.n(40, 500)]:
         if isinstance(res, Err):
             continue
 
@@ -551,8 +551,8 @@ def main(chk: Check):
             continue
         bash_in.append(([k for k in env if k != MARKER and in_domain({k: ""})], res,
                         "impl" if in_domain(env) else "impl-offdomain"))
-    bash_in = bash_in[: chk.n(130, 1800)]
-    for _ in range(chk.n(160, 1800)):
+    bash_in = bash_in[: chk.n(110, 1800)]
+    for _ in range(chk.n(130, 1800)):
         names, text = gen_fragment_text(rng)
         bash_in.append((names, text, "hand"))
     for t in MALFORMED:
@@ -568,7 +568,7 @@ def main(chk: Check):
     # ------------------------------------------------------------------ e2e (real daemon)
     e2e_cases, e2e_meta, py_bad = [], [], []
     dro = []
-    n_e2e = chk.n(44, 300)
+    n_e2e = chk.n(36, 300)
     dm = Daemon(chk)
     e2e_note = None
     try:
@@ -653,10 +653,10 @@ def main(chk: Check):
         import concurrent.futures as cf
         jobs = {
             "gen": ("gen_input", gen_cases,
-                    ["mismatches run_gen cases", "where_ (fun i r => negb (spec_gen_ok i r)) cases"], 130),
+                    ["mismatches run_gen cases", "where_ (fun i r => negb (spec_gen_ok i r)) cases"], 220),
             "frame": ("str * str", frame_cases,
                       ["mismatches run_frame2 cases", "where_ (fun i r => negb (spec_frame_val i r)) cases"], 60),
-            "bash": ("list str * str", bash_cases, ["where_ bash_differs cases", "where_ bash_outside cases"], 120),
+            "bash": ("list str * str", bash_cases, ["where_ bash_differs cases", "where_ bash_outside cases"], 150),
         }
         if e2e_cases:
             jobs["e2e"] = ("gen_input", e2e_cases,
